@@ -54,9 +54,23 @@ impl Stdin {
         if !os::is_installed() {
             return std::io::stdin().read_line(buf);
         }
+        let mut partial: Option<String> = None;
         let (idx, res, injected) = os::with(|os| {
             let (idx, fault) = os.take_fault();
             if let Some(f) = fault {
+                // torn: part of the line has already arrived (a first read(2) delivered bytes
+                // without a newline) when the failure comes: `buf` holds that part, as it does with
+                // the real `read_line`, and the rest of the line stays in the stream
+                if f.torn == 1 {
+                    if let Some(StdinEvent::Line(bytes)) = os.stdin.get(os.stdin_pos).cloned() {
+                        let text = String::from_utf8_lossy(&bytes).into_owned();
+                        let cut = text.char_indices().map(|(i, _)| i).nth(text.chars().count() / 2).unwrap_or(0);
+                        if cut > 0 && std::str::from_utf8(&bytes).is_ok() {
+                            partial = Some(text[..cut].to_string());
+                            os.stdin[os.stdin_pos] = StdinEvent::Line(text[cut..].as_bytes().to_vec());
+                        }
+                    }
+                }
                 return (idx, Err(errno_error(f.errno)), true);
             }
             let ev = os.stdin.get(os.stdin_pos).cloned().unwrap_or(StdinEvent::Eof);
@@ -77,7 +91,11 @@ impl Stdin {
             Ok(s) => CallResult::Ok(s.clone()),
             Err(e) => err_repr(e),
         };
-        os::with(|os| os.log(idx, "stdin_read_line", vec![], repr, injected, false));
+        let torn = partial.is_some();
+        os::with(|os| os.log(idx, "stdin_read_line", vec![], repr, injected, torn));
+        if let Some(p) = partial {
+            buf.push_str(&p);
+        }
         let s = res?;
         buf.push_str(&s);
         Ok(s.len())
